@@ -86,6 +86,11 @@ def corpus():
              setup=[disc, W.qlt(OWN, MAPPER, 3, 0x0E, 0), W.qlt(OWN, MAPPER, 4, 0x0E, P), W.qlt(OWN, MAPPER, 5, 0x0E, 2 * P)], pre_ops=["ADV 61000"],
              request=[W.qlt(OWN, MAPPER, 6, 0x0E, 100), W.qlt(OWN, MAPPER, 7, 0x0E, 0), W.qlt(OWN, MAPPER, 8, 0x0E, 2 * P)],
              post=[W.qlt(OWN, MAPPER, 10, 0x0E, 0)]),
+        # the mapper's Query hits the fault and gets no answer; the mapper asks again under the same number, then goes on
+        dict(name="query-retried-after-a-failed-one", wifi=0, mtu=1500, setup=[disc] + probes(3) + [W.query(OWN, MAPPER, 8)],
+             request=probes(2, base=20) + [W.query(OWN, MAPPER, 9)], post=[W.query(OWN, MAPPER, 9), W.query(OWN, MAPPER, 10)]),
+        dict(name="qlt-retried-after-a-failed-one", wifi=0, mtu=1500, setup=[disc, W.qlt(OWN, MAPPER, 3, 0x0E, 0)],
+             request=[W.qlt(OWN, MAPPER, 4, 0x0E, P)], post=[W.qlt(OWN, MAPPER, 4, 0x0E, P), W.qlt(OWN, MAPPER, 5, 0x0E, 2 * P)]),
         dict(name="qlt-offset-past-end", wifi=0, mtu=1500, setup=[disc],
              request=[W.qlt(OWN, MAPPER, 3, 0x0E, 0x7FFF), W.qlt(OWN, MAPPER, 4, 0x11, 0x7FFF), W.qlt(OWN, MAPPER, 5, 0x13, 65)]),
     ]
@@ -98,7 +103,8 @@ CONT = [W.discover(MAPPER, 5, 6, [], tos=0), W.probe(OWN, S1, OWN, S1), W.query(
 def build_scn(sid, c, fault_lines, getter_fail=None, failrc=-1):
     cfg = cfg_for(c["wifi"], c["mtu"])
     s = H.Scenario(sid, meta=dict(base=c["name"], nreq=len(c["request"]), nsetup=len(c["setup"]), flow=bool(c.get("flow")),
-                                  getter_fail=getter_fail, mtu=c.get("request_mtu", c["mtu"]), request_frames=list(c["request"])))
+                                  getter_fail=getter_fail, mtu=c.get("request_mtu", c["mtu"]), request_frames=list(c["request"]),
+                                  post_frames=list(c.get("post", []))))
     kw = H.iface_kw(cfg)
     s.iface(0, **kw)
     s.iface(1, **kw)
@@ -205,6 +211,25 @@ def make_monitor(refs):
                 probs = [p for p in probs if p != "real-source-not-own"]
             for p in probs:
                 bad("malformed-frame-under-fault:%s" % p.split(":")[0], "%s frame=%s" % (p, raw.hex()[:160]))
+        # requests that arrive after the fault has cleared have no fault of their own: whatever answers them is a well-formed frame
+        # that carries the number of the request it answers (not the number of a request the fault left unanswered, or of the
+        # one answered before it)
+        pf = meta.get("post_frames") or []
+        if pf:
+            allin = section(scn, "request", meta["nreq"] + len(pf))
+            for k, i in enumerate(allin[meta["nreq"]:]):
+                fr = pf[k]
+                want_seq = int.from_bytes(fr[30:32], "big")
+                for e in i.sends():
+                    raw = e[3]
+                    if raw is None or len(raw) < 32:
+                        continue
+                    rep.count("frames_after_the_fault_judged")
+                    g = W.decode(raw)
+                    if fr[17] in (W.OP_QUERY, W.OP_QLT) and g.opcode in (W.OP_QUERYRESP, W.OP_QLTRESP) and want_seq != 0 and g.seq != want_seq:
+                        bad("request-after-the-fault-answered-with-another-number:%s" % meta.get("kind"),
+                            "request %d after the fault cleared (opcode %d, sequence number %d) was answered by a frame carrying %d: %s"
+                            % (k + 1, fr[17], want_seq, g.seq, raw.hex()[:120]))
         if meta.get("kind") == "alloc":
             # observations: a Probe/Train whose own handling was not hit by the fault is recorded as usual, so every pair
             # seen in such a frame is listed by the Queries that follow (when those were not hit either and drained the list)
